@@ -287,7 +287,7 @@ def callNativeD (rb : RunBody) (fns : Array FnDef) : Nat → CallNat
       | (s, .err e) => (s, .err (.taskFailure name e))
       | other => other
     let arity : Option Nat := match name with
-      | "__min" | "__max" | "__sort" | "sum2" | "callback" => some 2
+      | "__min" | "__max" | "__sort" | "sum2" | "callback" | "pcall" => some 2
       | "__to_array" | "log" | "strlen" | "mktable" => some 1
       | "three" => some 3 | "four" => some 4 | "fail" => some 0
       | _ => none
@@ -319,6 +319,11 @@ def callNativeD (rb : RunBody) (fns : Array FnDef) : Nat → CallNat
     | "callback", [f, x] =>
       match wrap (callValue s f [x]) with
       | (s, .ok r) => ({ s with log := s.log ++ ["callback -> " ++ (deepV s r).toTok] }, .ok r)
+      | other => other
+    | "pcall", [f, x] =>
+      -- a protected call: an error of the callee is logged and swallowed
+      match callValue s f [x] with
+      | (s, .err e) => ({ s with log := s.log ++ ["pcall caught " ++ e.name] }, .ok .nil)
       | other => other
     | "__to_array", [t] =>
       match asTable s t with
